@@ -20,6 +20,7 @@ mod session;
 mod timer;
 mod gentrace;
 mod genunify;
+mod genbip;
 
 use serde_json::Value;
 
@@ -80,6 +81,8 @@ fn main() {
         "gen-trace" => gentrace::main(&args[2], args[3].parse().unwrap(), args[4].parse().unwrap()),
         "gen-unify-trace" => genunify::main(&args[2], args[3].parse().unwrap(), args[4].parse().unwrap()),
         "gen-unify-worker" => genunify::worker(&args[2], args[3].parse().unwrap(), args[4].parse().unwrap(), args[5].parse().unwrap()),
+        "gen-bip-trace" => genbip::main(&args[2], args[3].parse().unwrap(), args[4].parse().unwrap()),
+        "gen-bip-worker" => genbip::worker(&args[2], args[3].parse().unwrap(), args[4].parse().unwrap(), args[5].parse().unwrap()),
         "record" => gentrace::record_one(&args[2], &args[3]),
         "gen-trace-worker" => gentrace::worker(&args[2], args[3].parse().unwrap(), args[4].parse().unwrap(), args[5].parse().unwrap()),
         _ => { eprintln!("unknown command"); 2 }
